@@ -6,7 +6,11 @@ package main
 
 import (
 	"fmt"
-	"sort"
+	"os"
+	"reflect"
+	"runtime/pprof"
+	"slices"
+	"strconv"
 	"strings"
 	"sync/atomic"
 	"time"
@@ -15,41 +19,75 @@ import (
 	"verif/space"
 )
 
-// The space is finite by construction: elements come from `alphabet`, Grow arguments from
-// `grows`, and no operation creates a word beyond the one of the largest of these numbers
-// (Merge only copies words the other operand already has).
+// The space is finite by construction: elements come from the alphabet of the side, Grow
+// arguments from `grows`, and no operation creates a word beyond the one of the largest of these
+// numbers (Merge only copies words the other operand already has).
+type config struct {
+	idx    int
+	name   string
+	kind   sysKind
+	alpha  [2][]uint // members offered on side A / B, simplest first
+	grows  []uint
+	starts [][2]int // initial Grow argument per side (-1 = zero value)
+	ops    []space.Op
+}
+
 var (
-	alphabet []uint // simplest first
-	grows    []uint
-	probes   []uint // Contains is asked for alphabet, neighbours and two far values
+	quickAlpha = []uint{0, 1, 63, 64, 65, 127, 128}
+	fullAlpha  = []uint{0, 1, 63, 64, 65, 127, 128, 129, 191, 192}
+	subAlpha   = []uint{0, 63, 64, 127, 128, 191, 192} // side B of the thorough 4-word systems
+	grows3     = []uint{0, 63, 64, 127, 128}
+	grows4     = []uint{0, 63, 64, 127, 128, 191, 192}
+	// no constructor exists; differing initial capacities are produced with Grow so that
+	// operands of different capacities meet at depth 1
+	starts2 = [][2]int{{-1, -1}, {-1, 128}, {128, -1}, {64, 0}}
+	starts1 = [][2]int{{-1, -1}, {0, -1}, {128, -1}}
+
+	probes   []uint // Contains is asked for alphabet, neighbours and far values
 	maxWords int
 )
 
-func setup(thorough bool) {
-	alphabet = []uint{0, 1, 63, 64, 65, 127, 128}
-	grows = []uint{0, 63, 64, 127, 128}
+func configs(thorough bool) []*config {
+	cs := []*config{
+		{name: "setz.Bits", kind: kBits, alpha: [2][]uint{quickAlpha, quickAlpha}, grows: grows3, starts: starts2},
+		{name: "setz.Bitmap", kind: kBitmap, alpha: [2][]uint{quickAlpha, quickAlpha}, grows: grows3, starts: starts2},
+		{name: "dsz.Bits", kind: kDsz, alpha: [2][]uint{quickAlpha, nil}, grows: grows3, starts: starts1},
+	}
 	maxWords = 3
+	all := quickAlpha
 	if thorough {
-		alphabet = append(alphabet, 129, 191, 192)
-		grows = append(grows, 191, 192)
+		// the full product over the 10-value alphabet has 1609^2 = 2.6 M states and 3.3e8
+		// transitions; side B is therefore restricted to a 7-value alphabet that still spans
+		// all four words and both ends of every word (both operation directions are offered,
+		// so either side can be the shorter / the poorer one)
+		cs[2] = &config{name: "dsz.Bits", kind: kDsz, alpha: [2][]uint{fullAlpha, nil}, grows: grows4, starts: starts1}
+		cs = append(cs,
+			&config{name: "setz.Bits/4words-A10xB7", kind: kBits, alpha: [2][]uint{fullAlpha, subAlpha}, grows: grows4, starts: starts2},
+			&config{name: "setz.Bitmap/4words-A10xB7", kind: kBitmap, alpha: [2][]uint{fullAlpha, subAlpha}, grows: grows4, starts: starts2})
 		maxWords = 4
+		all = fullAlpha
 	}
 	seen := map[uint]bool{}
-	for _, v := range alphabet {
+	for _, v := range all {
 		if v > 0 {
 			seen[v-1] = true
 		}
 		seen[v] = true
 		seen[v+1] = true
 	}
-	seen[uint(maxWords)*64] = true // first number of the word after the last possible one
+	seen[uint(maxWords)*64] = true // first and last number of the word after the last possible one
 	seen[uint(maxWords)*64+63] = true
 	seen[1<<40] = true
 	seen[^uint(0)] = true
 	for v := range seen {
 		probes = append(probes, v)
 	}
-	sort.Slice(probes, func(i, j int) bool { return probes[i] < probes[j] })
+	slices.Sort(probes)
+	for i, c := range cs {
+		c.idx = i
+		c.ops = buildOps(c)
+	}
+	return cs
 }
 
 // canon dumps the private state (cached length + word slice). Slice capacities are left out:
@@ -57,9 +95,12 @@ func setup(thorough bool) {
 // slots it exposes), so spare capacity cannot influence a future.
 var canon = &space.Canonizer{}
 
-// wordPairs[a][b] is set when a state with Cap(A)/64 == a and Cap(B)/64 == b was checked
+// wordPairs[c][a][b] is set when a state with Cap(A)/64 == a and Cap(B)/64 == b was checked
 // (coverage information only: shows that operands of different capacities met).
-var wordPairs [3][8][8]int32
+var wordPairs [8][8][8]int32
+
+// witnessMissing is set when the word slice could not be located by reflection.
+var witnessMissing int32
 
 type sysKind int
 
@@ -69,91 +110,120 @@ const (
 	kDsz
 )
 
-var sysNames = [...]string{"setz.Bits", "setz.Bitmap", "dsz.Bits"}
-
-// start states: initial Grow argument per side (-1 = zero value), so that operands of
-// different initial capacities meet at depth 1.
-var starts2 = [][2]int{{-1, -1}, {-1, 128}, {128, -1}, {64, 0}}
-var starts1 = []int{-1, 0, 128}
-
 type inst struct {
-	kind sysKind
-	n    int // number of sets (2, or 1 for dsz.Bits which has no binary operation)
-	s    [2]set
-	m    [2]map[uint]bool
-	last string // class of the last operation, only used in signatures
+	c         *config
+	n         int // number of sets (2, or 1 for dsz.Bits which has no binary operation)
+	s         [2]set
+	m         [2]map[uint]bool
+	last      string // class of the last operation, only used in signatures
+	lastOther int    // side that was the argument of the last operation if it was a bulk one, else -1
+	lastSrc   int    // side that was cloned by the last operation if the clone was mutated, else -1
 }
 
-func newInst(kind sysKind, start int) *inst {
-	x := &inst{kind: kind, n: 2, last: "start"}
-	if kind == kDsz {
+func newInst(c *config, start int) *inst {
+	x := &inst{c: c, n: 2, last: "start", lastOther: -1, lastSrc: -1}
+	if c.kind == kDsz {
 		x.n = 1
 	}
 	for i := 0; i < x.n; i++ {
-		x.s[i] = newSet(kind)
+		x.s[i] = newSet(c.kind)
 		x.m[i] = map[uint]bool{}
-		g := -1
-		if x.n == 2 {
-			g = starts2[start][i]
-		} else {
-			g = starts1[start]
-		}
-		if g >= 0 {
+		if g := c.starts[start][i]; g >= 0 {
 			x.s[i].grow(uint(g))
 		}
 	}
 	return x
 }
 
+// Roots: the two real objects plus one harness fact the reflective dump cannot see — whether
+// the word arrays of A and B overlap in memory. Sharing is not a violation by itself, but a
+// state with shared words has other futures than its unshared twin, so it must not be merged
+// with it (otherwise "Merge adopts the argument's array" would never be expanded).
 func (x *inst) Roots() []any {
 	if x.n == 1 {
 		return []any{x.s[0].root()}
 	}
-	return []any{x.s[0].root(), x.s[1].root()}
+	return []any{x.s[0].root(), x.s[1].root(), x.shared()}
+}
+
+func (x *inst) shared() bool {
+	alo, ahi, ok1 := backing(reflect.ValueOf(x.s[0].root()).Elem())
+	blo, bhi, ok2 := backing(reflect.ValueOf(x.s[1].root()).Elem())
+	if !ok1 || !ok2 {
+		atomic.StoreInt32(&witnessMissing, 1)
+		return false
+	}
+	return alo < bhi && blo < ahi
+}
+
+// backing returns the address range of the first slice found in the private state.
+func backing(v reflect.Value) (lo, hi uintptr, ok bool) {
+	switch v.Kind() {
+	case reflect.Slice:
+		if v.Cap() == 0 {
+			return 0, 0, true
+		}
+		lo = v.Pointer()
+		return lo, lo + uintptr(v.Cap())*v.Type().Elem().Size(), true
+	case reflect.Struct:
+		for i := 0; i < v.NumField(); i++ {
+			if lo, hi, ok = backing(v.Field(i)); ok {
+				return
+			}
+		}
+	}
+	return 0, 0, false
 }
 
 func (x *inst) Abstract() string {
-	if x.n == 1 {
-		return fmt.Sprint(sorted(x.m[0]))
+	var b []byte
+	for i := 0; i < x.n; i++ {
+		for _, v := range sorted(x.m[i]) {
+			b = strconv.AppendUint(b, uint64(v), 10)
+			b = append(b, ' ')
+		}
+		b = append(b, '|')
 	}
-	return fmt.Sprint(sorted(x.m[0]), sorted(x.m[1]))
+	return string(b)
 }
 
 // ---------------------------------------------------------------- operations
 
-var opTable [3][]space.Op
-
-func buildOps(kind sysKind) []space.Op {
+func buildOps(c *config) []space.Op {
 	sides := []string{"A", "B"}
-	if kind == kDsz {
+	if c.kind == kDsz {
 		sides = sides[:1]
 	}
 	var ops []space.Op
-	each := func(name string, args []uint) {
-		for _, s := range sides {
+	each := func(name string, perSide bool) {
+		for i, s := range sides {
+			args := c.grows
+			if perSide {
+				args = c.alpha[i]
+			}
 			for _, v := range args {
 				ops = append(ops, space.Op{Name: s + "." + name, Args: []int{int(v)}})
 			}
 		}
 	}
-	each("Add", alphabet)
-	each("Contains", alphabet)
-	each("Remove", alphabet)
-	each("Grow", grows)
-	if kind != kDsz {
+	each("Add", true)
+	each("Contains", true)
+	each("Remove", true)
+	each("Grow", false)
+	if c.kind != kDsz {
 		for _, b := range []string{"Diff", "Intersect", "Merge"} {
 			ops = append(ops, space.Op{Name: "A." + b + "(B)"}, space.Op{Name: "B." + b + "(A)"})
 		}
 		for _, b := range []string{"Diff", "Intersect", "Merge"} {
 			ops = append(ops, space.Op{Name: "A." + b + "(A)"}, space.Op{Name: "B." + b + "(B)"})
 		}
-		each("Clone+toggleInClone", alphabet)
-		each("Clone+toggleInSource", alphabet)
+		each("Clone+toggleInClone", true)
+		each("Clone+toggleInSource", true)
 	}
 	return ops
 }
 
-func (x *inst) Ops() []space.Op { return opTable[x.kind] }
+func (x *inst) Ops() []space.Op { return x.c.ops }
 
 func mm(sig, format string, a ...any) *space.Mismatch {
 	return &space.Mismatch{Sig: sig, What: fmt.Sprintf(format, a...)}
@@ -170,6 +240,7 @@ func (x *inst) Apply(op space.Op) *space.Mismatch {
 	if len(op.Args) > 0 {
 		v = uint(op.Args[0])
 	}
+	x.lastOther, x.lastSrc = -1, -1
 	switch meth {
 	case "Add":
 		was := m[v]
@@ -184,7 +255,7 @@ func (x *inst) Apply(op space.Op) *space.Mismatch {
 		got, has := s.add(v)
 		m[v] = true
 		if has && got != !was {
-			return mm(ep+".Add|wrong-result|"+class, "%s = %v, want %v (membership changed: %v); set before: %v", op, got, !was, !was, without(m, v, was))
+			return mm(ep+".Add|wrong-result|"+class, "%s = %v, want %v; set before: %v", op, got, !was, without(m, v, was))
 		}
 	case "Remove":
 		was := m[v]
@@ -214,6 +285,7 @@ func (x *inst) Apply(op space.Op) *space.Mismatch {
 		o, om := x.s[oside], x.m[oside]
 		class := "self-operand"
 		if oside != side {
+			x.lastOther = oside
 			switch rw, ow := words(s), words(o); {
 			case rw < ow:
 				class = "receiver-shorter"
@@ -224,10 +296,8 @@ func (x *inst) Apply(op space.Op) *space.Mismatch {
 			}
 		}
 		x.last = b + "/" + class
-		before := canon.Dump(o.root())
-		wantOther := sorted(om)
 		s.bulk(b, o)
-		nm := map[uint]bool{}
+		nm := make(map[uint]bool, len(m)+len(om))
 		switch b {
 		case "Diff":
 			for k := range m {
@@ -250,17 +320,13 @@ func (x *inst) Apply(op space.Op) *space.Mismatch {
 			}
 		}
 		x.m[side] = nm
-		if oside != side {
-			if after := canon.Dump(o.root()); after != before {
-				return mm(ep+"."+b+"|other-operand-changed|"+class, "%s modified its argument: private state %s -> %s (argument should still be %v)", op, before, after, wantOther)
-			}
-		}
-		// the receiver (result and Len) is compared by the battery that follows
+		// The battery that follows compares the receiver (result, Len) with nm and the argument
+		// with its unchanged model; a difference there is reported as other-operand-changed.
 	case "Clone+toggleInClone":
 		x.last = "Clone"
-		before := canon.Dump(s.root())
+		x.lastSrc = side
 		c := s.clone()
-		if f, msg := content(c, m); f != "" {
+		if f, msg := content(c, m, sorted(m)); f != "" {
 			return mm(ep+".Clone|clone-differs-from-source|"+f, "clone of %v: %s", sorted(m), msg)
 		}
 		cm := copyModel(m)
@@ -268,29 +334,25 @@ func (x *inst) Apply(op space.Op) *space.Mismatch {
 			r.Sig = ep + ".Clone|" + r.Sig + "|on-clone"
 			return r
 		}
-		if f, msg := content(c, cm); f != "" {
+		if f, msg := content(c, cm, sorted(cm)); f != "" {
 			return mm(ep+".Clone|clone-wrong-after-mutation|"+f, "clone of %v after toggling %d in the clone: %s", sorted(m), v, msg)
 		}
-		if after := canon.Dump(s.root()); after != before {
-			return mm(ep+".Clone|source-changed-by-clone-mutation|toggle", "toggling %d in a clone of %v changed the source: private state %s -> %s", v, sorted(m), before, after)
-		}
+		// the source is compared with its unchanged model by the battery that follows
+		// (reported as source-changed-by-clone-mutation)
 	case "Clone+toggleInSource":
 		x.last = "Clone"
 		c := s.clone()
 		cm := copyModel(m)
-		if f, msg := content(c, cm); f != "" {
-			return mm(ep+".Clone|clone-differs-from-source|"+f, "clone of %v: %s", sorted(cm), msg)
+		want := sorted(cm)
+		if f, msg := content(c, cm, want); f != "" {
+			return mm(ep+".Clone|clone-differs-from-source|"+f, "clone of %v: %s", want, msg)
 		}
-		before := canon.Dump(c.root())
 		if r := toggle(s, m, v); r != nil {
 			r.Sig = ep + "." + r.Sig + "|after-Clone"
 			return r
 		}
-		if f, msg := content(c, cm); f != "" {
-			return mm(ep+".Clone|clone-changed-by-source-mutation|"+f, "clone of %v after toggling %d in the source: %s", sorted(cm), v, msg)
-		}
-		if after := canon.Dump(c.root()); after != before {
-			return mm(ep+".Clone|clone-changed-by-source-mutation|private-state", "toggling %d in the source %v changed its clone: private state %s -> %s", v, sorted(cm), before, after)
+		if f, msg := content(c, cm, want); f != "" {
+			return mm(ep+".Clone|clone-changed-by-source-mutation|"+f, "clone of %v after toggling %d in the source: %s", want, v, msg)
 		}
 	default:
 		panic("harness: unknown operation " + op.Name)
@@ -318,9 +380,8 @@ func toggle(s set, m map[uint]bool, v uint) *space.Mismatch {
 
 // ---------------------------------------------------------------- state battery
 
-// content compares every membership observation with the model: Len (all variants), Contains on
-// the probe values, and the Iter sequence. It returns the failing entry point and a description.
-func content(s set, m map[uint]bool) (string, string) {
+// membership compares Len (all variants) and Contains on the probe values with the model.
+func membership(s set, m map[uint]bool) (string, string) {
 	for _, l := range s.lens() {
 		if l.got != len(m) {
 			return l.name, fmt.Sprintf("%s() = %d, cardinality %d (members %v)", l.name, l.got, len(m), sorted(m))
@@ -331,7 +392,15 @@ func content(s set, m map[uint]bool) (string, string) {
 			return "Contains", fmt.Sprintf("Contains(%d) = %v, want %v (members %v)", p, got, m[p], sorted(m))
 		}
 	}
-	want := sorted(m)
+	return "", ""
+}
+
+// content = membership plus the Iter sequence (which sees every word, not only the probes).
+// It returns the failing entry point and a description. want = sorted(m).
+func content(s set, m map[uint]bool, want []uint) (string, string) {
+	if f, msg := membership(s, m); f != "" {
+		return f, msg
+	}
 	got, _ := s.iter(len(want), 0)
 	if !eq(got, want) {
 		return "Iter", fmt.Sprintf("Iter yields %d values %v, want %d values %v", len(got), got, len(want), want)
@@ -342,22 +411,32 @@ func content(s set, m map[uint]bool) (string, string) {
 func (x *inst) Check() *space.Mismatch {
 	var w [2]int
 	for i := 0; i < x.n; i++ {
-		if r := x.checkSet(x.s[i], x.m[i]); r != nil {
+		if r := x.checkSet(i); r != nil {
 			return r
 		}
 		if w[i] = words(x.s[i]); w[i] > 7 {
 			w[i] = 7
 		}
 	}
-	if wordPairs[x.kind][w[0]][w[1]] == 0 {
-		atomic.StoreInt32(&wordPairs[x.kind][w[0]][w[1]], 1)
+	if p := &wordPairs[x.c.idx][w[0]][w[1]]; atomic.LoadInt32(p) == 0 {
+		atomic.StoreInt32(p, 1)
 	}
 	return nil
 }
 
-func (x *inst) checkSet(s set, m map[uint]bool) *space.Mismatch {
+func (x *inst) checkSet(side int) *space.Mismatch {
+	s, m := x.s[side], x.m[side]
 	ep, after := s.ep(), "after-"+x.last
-	if f, msg := content(s, m); f != "" {
+	want := sorted(m)
+	n := len(want)
+	if f, msg := content(s, m, want); f != "" {
+		switch {
+		case side == x.lastOther: // the argument of the bulk operation just executed
+			i := strings.IndexByte(x.last, '/')
+			return mm(ep+"."+x.last[:i]+"|other-operand-changed|"+x.last[i+1:], "the argument of the bulk operation no longer equals %v: %s", want, msg)
+		case side == x.lastSrc:
+			return mm(ep+".Clone|source-changed-by-clone-mutation|"+f, "source %v after toggling a value in its clone: %s", want, msg)
+		}
 		k := "not-cardinality" // f is Len or Bitmap.Len
 		switch f {
 		case "Contains":
@@ -367,13 +446,11 @@ func (x *inst) checkSet(s set, m map[uint]bool) *space.Mismatch {
 		}
 		return mm(ep+"."+f+"|"+k+"|"+after, "%s", msg)
 	}
-	// Cap() is only required not to change membership
+	// Cap() is only required not to change membership (the enumerations below also run after it)
 	s.capv()
-	if f, msg := content(s, m); f != "" {
+	if f, msg := membership(s, m); f != "" {
 		return mm(ep+".Cap|changed-membership|"+f, "after calling Cap(): %s", msg)
 	}
-	want := sorted(m)
-	n := len(want)
 	// iterator: Value may be read twice, or not at all, without disturbing the enumeration
 	if got, unstable := s.iter(n, 1); unstable {
 		return mm(ep+".Iter|value-unstable|"+after, "two Value() calls after one Next() differ; members %v", want)
@@ -383,32 +460,31 @@ func (x *inst) checkSet(s set, m map[uint]bool) *space.Mismatch {
 	if got, _ := s.iter(n, 2); len(got) != n {
 		return mm(ep+".Iter|wrong-sequence|"+after, "Iter: Next() returned true %d times (Value never read), want %d; members %v", len(got), n, want)
 	}
-	type enum struct {
-		name string
-		run  func(func(uint) bool)
-	}
-	var enums []enum
-	if s.hasRange() {
-		enums = append(enums, enum{"Range", s.rangeFn})
-	}
-	if s.hasAll() {
-		enums = append(enums, enum{"All", s.all})
-	}
-	for _, e := range enums {
+	for e := 0; e < 2; e++ {
+		name, run := "Range", s.rangeFn
+		if e == 0 && !s.hasRange() {
+			continue
+		}
+		if e == 1 {
+			if !s.hasAll() {
+				continue
+			}
+			name, run = "All", s.all
+		}
 		// full enumeration
-		var got []uint
-		e.run(func(v uint) bool {
+		got := make([]uint, 0, n+1)
+		run(func(v uint) bool {
 			got = append(got, v)
 			return len(got) <= n+64 // always true unless the enumeration runs away
 		})
 		if !eq(got, want) {
-			return mm(ep+"."+e.name+"|wrong-sequence|"+after, "%s yields %d values %v, want %d values %v", e.name, len(got), got, n, want)
+			return mm(ep+"."+name+"|wrong-sequence|"+after, "%s yields %d values %v, want %d values %v", name, len(got), got, n, want)
 		}
 		// early stop after the k-th member, for every k
 		for k := 1; k <= n; k++ {
 			got = got[:0]
 			calls := 0
-			e.run(func(v uint) bool {
+			run(func(v uint) bool {
 				calls++
 				if calls <= k {
 					got = append(got, v)
@@ -416,10 +492,10 @@ func (x *inst) checkSet(s set, m map[uint]bool) *space.Mismatch {
 				return calls < k
 			})
 			if calls != k {
-				return mm(ep+"."+e.name+"|early-stop-ignored|"+after, "%s: callback returned false at call %d but was called %d times; members %v", e.name, k, calls, want)
+				return mm(ep+"."+name+"|early-stop-ignored|"+after, "%s: callback returned false at call %d but was called %d times; members %v", name, k, calls, want)
 			}
 			if !eq(got, want[:k]) {
-				return mm(ep+"."+e.name+"|wrong-sequence|"+after, "%s stopped after %d: got %v, want %v", e.name, k, got, want[:k])
+				return mm(ep+"."+name+"|wrong-sequence|"+after, "%s stopped after %d: got %v, want %v", name, k, got, want[:k])
 			}
 		}
 	}
@@ -435,7 +511,7 @@ func sorted(m map[uint]bool) []uint {
 			out = append(out, k)
 		}
 	}
-	sort.Slice(out, func(i, j int) bool { return out[i] < out[j] })
+	slices.Sort(out)
 	return out
 }
 
@@ -459,70 +535,68 @@ func copyModel(m map[uint]bool) map[uint]bool {
 	return c
 }
 
-func eq(a, b []uint) bool {
-	if len(a) != len(b) {
-		return false
-	}
-	for i := range a {
-		if a[i] != b[i] {
-			return false
-		}
-	}
-	return true
-}
+func eq(a, b []uint) bool { return slices.Equal(a, b) }
 
 // ---------------------------------------------------------------- main
 
 func main() {
 	r := common.Start("C16", "model_checking")
-	setup(r.Thorough())
+	if pf := os.Getenv("C16_PROF"); pf != "" {
+		f, _ := os.Create(pf)
+		pprof.StartCPUProfile(f)
+	}
+	cs := configs(r.Thorough())
 	var results []space.Result
 	walls := map[string]float64{}
-	for _, k := range []sysKind{kBits, kBitmap, kDsz} {
-		opTable[k] = buildOps(k)
-		kind := k
+	nops := map[string]int{}
+	scope := map[string]any{}
+	for _, c := range cs {
+		c := c
 		sys := space.System{
-			Name:   sysNames[k],
-			Starts: len(starts2),
-			New:    func(s int) space.Instance { return newInst(kind, s) },
+			Name:   c.name,
+			Starts: len(c.starts),
+			New:    func(s int) space.Instance { return newInst(c, s) },
 			Canon:  canon,
-		}
-		if k == kDsz {
-			sys.Starts = len(starts1)
 		}
 		t0 := time.Now()
 		res := space.Search(r, sys)
-		walls[sys.Name] = float64(time.Since(t0).Milliseconds()) / 1000
+		walls[c.name] = float64(time.Since(t0).Milliseconds()) / 1000
+		nops[c.name] = len(c.ops)
+		scope[c.name] = map[string]any{"members_A": c.alpha[0], "members_B": c.alpha[1], "grow_arguments": c.grows, "start_grow_arguments_A/B": c.starts}
 		r.Nontrivial(int64(res.States))
 		results = append(results, res)
 	}
 	space.Summarize(r, results)
 	pairs := map[string][]string{}
-	for k := range sysNames {
+	for _, c := range cs {
 		var ps []string
 		for a := 0; a < 8; a++ {
 			for b := 0; b < 8; b++ {
-				if wordPairs[k][a][b] != 0 {
+				if wordPairs[c.idx][a][b] != 0 {
 					ps = append(ps, fmt.Sprintf("%d/%d", a, b))
 				}
 			}
 		}
-		pairs[sysNames[k]] = ps
+		pairs[c.name] = ps
 	}
-	r.Cov("alphabet", alphabet)
-	r.Cov("grow_arguments", grows)
+	r.Cov("scope", scope)
 	r.Cov("contains_probes", probes)
 	r.Cov("max_words", maxWords)
-	r.Cov("operations_per_state", map[string]int{sysNames[0]: len(opTable[0]), sysNames[1]: len(opTable[1]), sysNames[2]: len(opTable[2])})
+	r.Cov("operations_per_state", nops)
 	r.Cov("capacity_pairs_checked_words_A/B", pairs)
 	r.Cov("wall_s_per_system", walls)
+	r.Cov("array_sharing_witness_in_state_key", witnessMissing == 0)
+	if witnessMissing != 0 {
+		r.Incomplete("the word slice was not found by reflection: states whose two sets share memory are merged with their unshared twins")
+	}
 	r.SampleL("bulk", map[string]any{"start": "A zero value, B after Grow(128)", "path": "B.Add[128] A.Add[0] A.Merge(B) A.Diff(B) B.Intersect(A)"})
 	r.SampleL("clone", map[string]any{"path": "A.Add[63] A.Clone+toggleInClone[64] A.Clone+toggleInSource[63]"})
 	r.Assume(
-		fmt.Sprintf("small scope: members from %v, Grow arguments %v, hence at most %d words per set; two sets per instance (one for dsz.Bits, which has no binary operation)", alphabet, grows, maxWords),
-		"slice capacity is not part of the state key: no method re-slices into spare capacity, so it cannot influence a future",
+		fmt.Sprintf("small scope: members and Grow arguments as listed under coverage.scope, hence at most %d words per set; two sets per instance (one for dsz.Bits, which has no binary operation)", maxWords),
+		"slice capacity is not part of the state key: no method re-slices into spare capacity, so it cannot influence a future; whether the word arrays of A and B overlap in memory is part of the key",
 		"Cap() is only called, its value is used for signature classes and coverage, never asserted; Add/Remove of dsz.Bits return nothing, their effect is judged by the battery",
-		"no constructor exists: start states are zero values, differing initial capacities are produced with Grow ("+strings.TrimSpace(fmt.Sprint(starts2))+")",
+		"no constructor exists: start states are zero values, differing initial capacities are produced with Grow",
 	)
-	r.Finish("states = distinct canonical dumps of the private state of both sets (cached length + word slice of A and of B); every transition is one real method call (or Clone + one mutation) compared with a map-set model — Add/Remove results, argument of a bulk operation untouched, clone and source independent — followed on both sets by the battery Len = cardinality (cached and counted), Contains on alphabet+neighbours+far values, membership unchanged by Cap, Iter (3 reading styles) = Range = All = sorted model with counts, early stop of Range/All after every k. Non-trivial = distinct states.")
+	pprof.StopCPUProfile()
+	r.Finish("states = distinct canonical dumps of the private state of both sets (cached length + word slice of A and of B, plus whether the two word arrays share memory); every transition is one real method call (or Clone + one mutation) compared with a map-set model — Add/Remove results, argument of a bulk operation untouched, clone and source independent — followed on both sets by the battery Len = cardinality (cached and counted), Contains on alphabet+neighbours+far values, membership unchanged by Cap, Iter (3 reading styles) = Range = All = sorted model with counts, early stop of Range/All after every k. Non-trivial = distinct states.")
 }
